@@ -457,6 +457,47 @@ fn dense_end_points() -> Option<String> {
     None
 }
 
+/// C08 / C03: the root finder never leaves the step: one RK4 step over the whole span, event functions that depend on t only;
+/// every time at which the event function is evaluated must lie in [x0, xend], and so must every reported event time
+fn brent_stays_in_bracket() -> Option<String> {
+    struct G { kind: usize, c: f64, al: f64, lo: Cell<f64>, hi: Cell<f64> }
+    impl G { fn g(&self, t: f64) -> f64 { match self.kind {
+        0 => (self.al * (t - self.c)).atan() + 0.3,
+        1 => (self.al * t).exp() - (self.al * self.c).exp(),
+        2 => (t - self.c).powi(3) + 1e-3 * (t - self.c),
+        3 => (self.al * (t - self.c)).tanh() - 0.5,
+        4 => 1.0 / (1.0 + (-(self.al) * (t - self.c)).exp()) - 0.2,
+        _ => (t - self.c) * (1.0 + self.al * (t - self.c) * (t - self.c)),
+    } } }
+    impl IVP for G {
+        fn ode(&self, _t: f64, _y: &[f64], d: &mut [f64]) { d[0] = 0.0; }
+        fn n_events(&self) -> usize { 1 }
+        fn events(&self, t: f64, _y: &[f64], out: &mut [f64]) {
+            if t < self.lo.get() { self.lo.set(t); }
+            if t > self.hi.get() { self.hi.set(t); }
+            out[0] = self.g(t);
+        }
+    }
+    for kind in 0..6 {
+        for ci in 1..40 {
+            for al in [0.5, 2.0, 5.0, 20.0, 80.0, 300.0] {
+                for (x0, xe) in [(0.0, 1.0), (1.0, 0.0)] {
+                    let c = ci as f64 / 40.0;
+                    let f = G { kind, c, al, lo: Cell::new(f64::MAX), hi: Cell::new(f64::MIN) };
+                    let r = solve_ivp(&f, x0, xe, &[0.0], Options::builder().method(Method::RK4).first_step(1.0).build());
+                    let (lo, hi) = (f.lo.get(), f.hi.get());
+                    if lo < -1e-12 || hi > 1.0 + 1e-12 {
+                        return Some(format!("event function kind {} (c={}, alpha={}) on [{}, {}], one RK4 step: the event function was evaluated at times in [{:e}, {:e}], outside the step", kind, c, al, x0, xe, lo, hi));
+                    }
+                    if let Ok(sol) = r { for te in sol.t_events[0].iter() { if *te < -1e-12 || *te > 1.0 + 1e-12 {
+                        return Some(format!("event function kind {} (c={}, alpha={}) on [{}, {}]: reported event time {:e} outside the step", kind, c, al, x0, xe, te)); } } }
+                }
+            }
+        }
+    }
+    None
+}
+
 fn main() {
     let which = std::env::args().nth(1).unwrap_or_default();
     let r = match which.as_str() {
@@ -467,6 +508,7 @@ fn main() {
         "default_mass" => default_mass(),
         "matrix_dense_model" => matrix_dense_model(),
         "lu_small" => lu_small(),
+        "brent_stays_in_bracket" => brent_stays_in_bracket(),
         "dense_end_points" => dense_end_points(),
         "complex_multiplier_modulus" => complex_multiplier_modulus(),
         "rk4_overshoot" => rk4_overshoot(),
